@@ -2,6 +2,7 @@ package main
 
 import (
 	"fmt"
+	"go/ast"
 	"go/constant"
 	"go/token"
 	"go/types"
@@ -245,6 +246,9 @@ func rulesC12(c *Ctx) {
 	mergeConstC12(c, p.SSAFunc(lt))
 	wildcardCallC12(c)
 	phaseOrderC12(c)
+	tagArgsC12(c)
+	c.Rule("C12.allsources", "in RewriteFields no loop over the statement's sources is left by `break`: a loop that stops at the first source of another kind leaves the subqueries after it unexpanded and untyped, and the result depends on the order the sources are written in")
+	loopNoBreak(c, "C12.allsources", p.Method("SelectStatement", "RewriteFields"), "(*SelectStatement).RewriteFields", "Sources", "the loop over the sources is left by break: sources after that point are not rewritten")
 }
 
 // phaseOrderC12: subqueries are rewritten before the outer statement's
@@ -567,4 +571,92 @@ func mergeConstC12(c *Ctx, ltSSA *ssa.Function) {
 		}
 	}
 	c.Floor("C12.mergeconst", n, 1)
+}
+
+// tagArgsC12: the guard in front of the loop over top()/bottom()'s tag
+// arguments admits every call that has a tag argument.
+func tagArgsC12(c *Ctx) {
+	p := c.P
+	c.Rule("C12.tagargs", "in FieldExprByName the loop over a call's tag arguments (Args[1:len(Args)-1]) runs whenever that slice is non-empty: the length test guarding it is not stricter than `more than two arguments`, otherwise top(value, host, 2) — exactly one tag — is skipped and an outer reference to host stays untyped")
+	fn := p.Method("SelectStatement", "FieldExprByName")
+	fd := p.FuncDecls[fn]
+	if fd == nil || fd.Body == nil {
+		c.Unk("C12.tagargs", "(*SelectStatement).FieldExprByName", 0, "anchor not found")
+		return
+	}
+	n := 0
+	var visit func(nd ast.Node, conds []ast.Expr)
+	visit = func(nd ast.Node, conds []ast.Expr) {
+		switch x := nd.(type) {
+		case nil:
+			return
+		case *ast.IfStmt:
+			var walkElse func(e ast.Stmt)
+			visit(x.Body, append(append([]ast.Expr{}, conds...), x.Cond))
+			walkElse = func(e ast.Stmt) {
+				if e != nil {
+					visit(e, conds)
+				}
+			}
+			walkElse(x.Else)
+			return
+		case *ast.RangeStmt:
+			if sl, ok := ast.Unparen(x.X).(*ast.SliceExpr); ok && sl.Low != nil && sl.High != nil {
+				lo, okLo := p.Info.Types[sl.Low]
+				hb, okHi := ast.Unparen(sl.High).(*ast.BinaryExpr)
+				if okLo && lo.Value != nil && okHi && hb.Op == token.SUB {
+					if lc, ok := hb.X.(*ast.CallExpr); ok && len(lc.Args) == 1 && types.ExprString(lc.Fun) == "len" && types.ExprString(lc.Args[0]) == types.ExprString(sl.X) {
+						if hv := p.Info.Types[hb.Y]; hv.Value != nil {
+							l, _ := constant.Int64Val(constant.ToInt(lo.Value))
+							h, _ := constant.Int64Val(constant.ToInt(hv.Value))
+							need := l + h + 1 // shortest length with a non-empty slice
+							n++
+							key := fmt.Sprintf("FieldExprByName: guard of the loop over %s", types.ExprString(x.X))
+							minLen := int64(-1)
+							for _, cnd := range conds {
+								ast.Inspect(cnd, func(m ast.Node) bool {
+									be, ok := m.(*ast.BinaryExpr)
+									if !ok || (be.Op != token.GTR && be.Op != token.GEQ) {
+										return true
+									}
+									if cc, ok := be.X.(*ast.CallExpr); ok && len(cc.Args) == 1 && types.ExprString(cc.Fun) == "len" && types.ExprString(cc.Args[0]) == types.ExprString(sl.X) {
+										if kv := p.Info.Types[be.Y]; kv.Value != nil {
+											k, _ := constant.Int64Val(constant.ToInt(kv.Value))
+											if be.Op == token.GTR {
+												k++
+											}
+											if k > minLen {
+												minLen = k
+											}
+										}
+									}
+									return true
+								})
+							}
+							switch {
+							case minLen < 0:
+								c.Unk("C12.tagargs", key, x.Pos(), "no length test of the argument list guards the loop")
+							case minLen > need:
+								c.Bad("C12.tagargs", key, x.Pos(), fmt.Sprintf("the guard asks for at least %d arguments, the slice is non-empty from %d on: a call with exactly %d arguments (one tag) is skipped", minLen, need, need))
+							default:
+								c.OK("C12.tagargs", key, x.Pos(), fmt.Sprintf("guard: at least %d arguments; first non-empty slice at %d", minLen, need))
+							}
+						}
+					}
+				}
+			}
+			visit(x.Body, conds)
+			return
+		case *ast.BlockStmt:
+			for _, st := range x.List {
+				visit(st, conds)
+			}
+			return
+		case *ast.ForStmt:
+			visit(x.Body, conds)
+			return
+		}
+	}
+	visit(fd.Body, nil)
+	c.Floor("C12.tagargs", n, 1)
 }
